@@ -11,7 +11,7 @@ import io
 
 from .. import engine, ledgers, monitors
 from .c09 import digest_entries
-from ..values import show_rows
+from ..values import show, show_rows
 
 ID = 'C13'
 LEVEL = 'exploration'
